@@ -50,6 +50,12 @@ fragment ObjF on Obj { name other { id } }
 OTHER_SDL = "type Query { zzz: String }\n"
 OTHER_QUERIES = "query Zzz { zzz }\n"
 BASE_CLIENT_FILE = "class MyBase:\n    pass\n"
+# valid layouts of a custom base client file (the class statement need not start in column 0)
+BASE_CLIENT_LAYOUTS = {
+    "base_plain.py": "import sys\n\n\nclass Other:\n    pass\n\n\nclass LocalBase:\n    def __init__(self, *a, **k):\n        pass\n",
+    "base_in_if.py": "import sys\n\nif sys.version_info >= (3, 8):\n\n    class LocalBase:\n        def __init__(self, *a, **k):\n            pass\n\nelse:\n\n    class LocalBase:\n        pass\n",
+    "base_in_try.py": "try:\n    import httpx\n\n    class LocalBase:\n        def __init__(self, *a, **k):\n            pass\nexcept ImportError:\n    raise\n",
+}
 
 # ------------------------------------------------------------------ violation classes
 
@@ -246,6 +252,9 @@ def _controls(draw):
         section[d.choice(["unknown_key", "schema_pat", "x-y", "plugins_"])] = d.choice([1, "v", [1], {"a": 1}])
     if d.bool(0.3):
         section["files_to_include"] = ["my_base.py"]
+    if d.bool(0.3):
+        section["base_client_file_path"] = d.choice(sorted(BASE_CLIENT_LAYOUTS))
+        section["base_client_name"] = "LocalBase"
     if d.bool(0.4):
         # header values: literal and environment references (resolved when the settings are read)
         section["remote_schema_headers"] = d.choice([
@@ -306,6 +315,9 @@ def write_base(scratch, sdl=BASE_SDL, queries=BASE_QUERIES):
         fh.write(queries)
     with open(os.path.join(scratch, "my_base.py"), "w") as fh:
         fh.write(BASE_CLIENT_FILE)
+    for name, text in BASE_CLIENT_LAYOUTS.items():
+        with open(os.path.join(scratch, name), "w") as fh:
+            fh.write(text)
 
 
 def write_config(scratch, section, no_section=False, top_extra=None):
